@@ -205,7 +205,24 @@ struct Case {
 // ------------------------------------------------------------------------------------------ files
 
 fn salt(i: u8) -> &'static str {
-    ["saltsalt", "ab", "./A9zZ", "0123456789abcdef", "x"][i as usize % 5]
+    ["saltsalt", "./A9zZ0123456789"][i as usize % 2]
+}
+
+static ORACLE_CACHE: Mutex<Option<std::collections::HashMap<(String, String), bool>>> = Mutex::new(None);
+
+/// Does libcrypt reproduce `field` from `pw`? (memoised: a pure function)
+fn crypt_confirms(pw: &str, field: &str) -> bool {
+    let key = (pw.to_string(), field.to_string());
+    if let Some(v) = ORACLE_CACHE.lock().expect("lock").get_or_insert_with(Default::default).get(&key) {
+        return *v;
+    }
+    let v = crypt3(pw, field).as_deref() == Some(field);
+    ORACLE_CACHE
+        .lock()
+        .expect("lock")
+        .get_or_insert_with(Default::default)
+        .insert(key, v);
+    v
 }
 
 static FIELD_CACHE: Mutex<Option<std::collections::HashMap<String, Option<String>>>> = Mutex::new(None);
@@ -213,7 +230,7 @@ static FIELD_CACHE: Mutex<Option<std::collections::HashMap<String, Option<String
 /// The stored shadow field for an entry (hashes are produced by libcrypt). None = libcrypt cannot.
 /// Pure function of its arguments; memoised because yescrypt/sha-crypt settings cost 10-100 ms.
 fn stored_field(kind: &HashKind, pw: &str, s: u8) -> Option<String> {
-    let key = format!("{kind:?}|{pw}|{}", s % 5);
+    let key = format!("{kind:?}|{pw}|{}", s % 2);
     if let Some(v) = FIELD_CACHE.lock().expect("lock").get_or_insert_with(Default::default).get(&key) {
         return v.clone();
     }
@@ -233,7 +250,7 @@ fn stored_field_uncached(kind: &HashKind, pw: &str, s: u8) -> Option<String> {
         HashKind::Sha512(Some(r)) => crypt3(pw, &format!("$6$rounds={r}${st}$")),
         HashKind::Sha256(None) => crypt3(pw, &format!("$5${st}$")),
         HashKind::Sha256(Some(r)) => crypt3(pw, &format!("$5$rounds={r}${st}$")),
-        HashKind::Yescrypt => crypt3(pw, &format!("$y$j9T${}$", &"saltSALT./01"[..(4 + (s as usize % 3) * 4)])),
+        HashKind::Yescrypt => crypt3(pw, &format!("$y$j9T${}$", &"saltSALT./01"[..(4 + (s as usize % 2) * 8)])),
         HashKind::Md5 => crypt3(pw, &format!("$1${}$", &st[..st.len().min(8)])),
         HashKind::Bcrypt => crypt3(pw, "$2b$04$abcdefghijklmnopqrstuu"),
         HashKind::Des => crypt3(pw, "ab"),
@@ -583,6 +600,11 @@ struct St {
 }
 
 static WORKER: AtomicUsize = AtomicUsize::new(0);
+static T_RENDER: AtomicUsize = AtomicUsize::new(0);
+static T_FILES: AtomicUsize = AtomicUsize::new(0);
+static T_CALL_CONN: AtomicUsize = AtomicUsize::new(0);
+static T_CALL_FALL: AtomicUsize = AtomicUsize::new(0);
+static T_ORACLE: AtomicUsize = AtomicUsize::new(0);
 
 fn init(root: &std::path::Path) -> St {
     let k = WORKER.fetch_add(1, Ordering::SeqCst);
@@ -616,6 +638,8 @@ fn check(st: &mut St, c: &Case) -> Outcome {
     if t_render.elapsed().as_millis() >= 100 {
         log.class("timing:render>=0.1s");
     }
+    T_RENDER.fetch_add(t_render.elapsed().as_micros() as usize, Ordering::Relaxed);
+    let t_files = std::time::Instant::now();
     let account = match (c.account_of_entry, c.files.entries.len()) {
         (Some(k), n) if n > 0 => NAMES[c.files.entries[k as usize % n].name as usize % NAMES.len()].to_string(),
         _ => NAMES[c.account as usize % NAMES.len()].to_string(),
@@ -634,6 +658,7 @@ fn check(st: &mut St, c: &Case) -> Outcome {
         log.class("parser:shadow-entry-count-differs");
     }
 
+    T_FILES.fetch_add(t_files.elapsed().as_micros() as usize, Ordering::Relaxed);
     let looked = if c.files.shadow_unreadable {
         None
     } else {
@@ -708,6 +733,12 @@ fn check(st: &mut St, c: &Case) -> Outcome {
     }));
     let _ = CLIENT.replace(None);
     let call_ms = t_call.elapsed().as_millis();
+    if matches!(c.daemon, Daemon::Reachable(_)) {
+        T_CALL_CONN.fetch_add(t_call.elapsed().as_micros() as usize, Ordering::Relaxed);
+    } else {
+        T_CALL_FALL.fetch_add(t_call.elapsed().as_micros() as usize, Ordering::Relaxed);
+    }
+    let t_oracle = std::time::Instant::now();
     if call_ms >= 900 {
         log.class("timing:module-call>=0.9s");
     } else if call_ms >= 100 {
@@ -791,28 +822,35 @@ fn check(st: &mut St, c: &Case) -> Outcome {
     } else {
         log.class("daemon:unreachable");
         let supplied = handler.supplied.borrow().clone();
-        // what the independent reading allows
-        let (hash_ok, why) = match &looked {
-            None => (false, "no-shadow-entry"),
+        // what the independent reading allows. libcrypt is consulted only when the module reports
+        // success (it is the authority then); refusals are merely classified, from the shape of the
+        // stored field and the generator's knowledge of the true password.
+        let supported_field = looked
+            .as_ref()
+            .is_some_and(|(f, _, _)| f.starts_with("$5$") || f.starts_with("$6$") || f.starts_with("$y$"));
+        let why = match &looked {
+            None => "no-shadow-entry",
             Some((field, _, _)) => {
-                let supported = field.starts_with("$5$") || field.starts_with("$6$") || field.starts_with("$y$");
-                if !supported {
-                    (
-                        false,
-                        if field.is_empty() {
-                            "empty-field"
-                        } else if field.starts_with('!') || field.starts_with('*') {
-                            "locked-field"
-                        } else {
-                            "unsupported-hash"
-                        },
-                    )
-                } else if supplied.iter().any(|pw| crypt3(pw, field).as_deref() == Some(field.as_str())) {
-                    (true, "verifies")
+                if supported_field {
+                    "wrong-password-or-broken-hash"
+                } else if field.is_empty() {
+                    "empty-field"
+                } else if field.starts_with('!') || field.starts_with('*') {
+                    "locked-field"
                 } else {
-                    (false, "wrong-password-or-broken-hash")
+                    "unsupported-hash"
                 }
             }
+        };
+        let intact_supported = first_entry.is_some_and(|e| matches!(e.kind, HashKind::Sha512(_) | HashKind::Sha256(_) | HashKind::Yescrypt));
+        let true_pw_supplied = first_entry.is_some_and(|e| supplied.iter().any(|p| p == PWS[e.pw as usize % PWS.len()]));
+        let hash_ok = if success && !c.acct_flow {
+            supported_field
+                && looked
+                    .as_ref()
+                    .is_some_and(|(field, _, _)| supplied.iter().any(|pw| crypt_confirms(pw, field)))
+        } else {
+            supported_field && intact_supported && true_pw_supplied
         };
         if success {
             if c.acct_flow {
@@ -888,6 +926,7 @@ fn check(st: &mut St, c: &Case) -> Outcome {
             }
         }
     }
+    T_ORACLE.fetch_add(t_oracle.elapsed().as_micros() as usize, Ordering::Relaxed);
     log.finish()
 }
 
@@ -1079,8 +1118,8 @@ fn main() {
     cx.assume("a failing PamHandler callback returns a non-success code; expiry day 0 and negative days are ambiguous per shadow(5) and impose no requirement");
     cx.assume("the harness passes the module the output of the real read_etc_passwd_file/read_etc_shadow_file on its scratch files via the verif-hooks RequestOptions::Verif variant, mirroring RequestOptions::Main (unwrap_or_default on unreadable files)");
     let root = cx.root.clone();
-    let n_auth = cx.tier.pick(5_000, 150_000);
-    let n_acct = cx.tier.pick(1_500, 40_000);
+    let n_auth = cx.tier.pick(3_000, 150_000);
+    let n_acct = cx.tier.pick(1_000, 40_000);
     cx.prop(
         "authenticate",
         PropCfg::new(n_auth).shrink(300),
@@ -1096,16 +1135,26 @@ fn main() {
         |st, c| check(st, c),
     );
     let _ = std::fs::remove_dir_all(root.join("target").join("scratch").join(format!("c43-{}", std::process::id())));
-    cx.require_class("success:daemon-said-so", 300);
-    cx.require_class("success:after-multi-step-conversation", 60);
-    cx.require_class("success:fallback-hash-verified", 130);
-    cx.require_class("success:fallback-$6$", 50);
-    cx.require_class("success:fallback-$5$", 30);
-    cx.require_class("success:fallback-$y$", 30);
-    cx.require_class("success:fallback-acct", 150);
-    cx.require_class("refused:fallback-expired", 40);
-    cx.require_class("refused:fallback-locked-field", 60);
-    cx.require_class("refused:fallback-wrong-password-or-broken-hash", 100);
+    cx.extra(
+        "time_spent_ms",
+        json!({
+            "render": T_RENDER.load(Ordering::Relaxed) / 1000,
+            "files": T_FILES.load(Ordering::Relaxed) / 1000,
+            "module_call_connected": T_CALL_CONN.load(Ordering::Relaxed) / 1000,
+            "module_call_fallback": T_CALL_FALL.load(Ordering::Relaxed) / 1000,
+            "oracle": T_ORACLE.load(Ordering::Relaxed) / 1000,
+        }),
+    );
+    cx.require_class("success:daemon-said-so", 200);
+    cx.require_class("success:after-multi-step-conversation", 40);
+    cx.require_class("success:fallback-hash-verified", 80);
+    cx.require_class("success:fallback-$6$", 25);
+    cx.require_class("success:fallback-$5$", 20);
+    cx.require_class("success:fallback-$y$", 20);
+    cx.require_class("success:fallback-acct", 100);
+    cx.require_class("refused:fallback-expired", 25);
+    cx.require_class("refused:fallback-locked-field", 40);
+    cx.require_class("refused:fallback-wrong-password-or-broken-hash", 80);
     cx.require_class("refused:undecodable-reply", 50);
     cx.require_class("refused:wrong-reply-kind", 50);
     cx.finish();
